@@ -16,6 +16,11 @@ RULE = ('every byte string over the alphabet {CR, LF, NUL, space, "a"} of '
         'pair is distinct by construction (disjoint shards of one '
         'enumeration); non-trivial = the string contains at least one byte '
         'of the newline.')
+RULE += (
+         ' Also: buffers of 4 MiB (thorough: 9 and 17 MiB) in which a '
+         'newline straddles every power of two and every multiple of 1 MiB '
+         'and 10^6. Process axes (DESIGN 2.8): 2 of 16 shards run under '
+         'python -O, 4 of 16 after a hostile warm-up of the library.')
 FLOOR = {'quick': 100000, 'thorough': 1000000}
 REQUIRED_REACH = ['split_lines']
 REQUIRED_COUNTERS = ['cold_pass_pairs', 'large_buffers_checked']
